@@ -296,3 +296,23 @@ func ReqCtxSetBodyStream(c *fasthttp.RequestCtx, rdr io.Reader, size int) {
 func ReqCtxErr(c *fasthttp.RequestCtx) error            { return nil }
 func ReqCtxDone(c *fasthttp.RequestCtx) <-chan struct{} { return nil }
 func ReqCtxValue(c *fasthttp.RequestCtx, key any) any   { return nil }
+
+func RespSetBody(r *fasthttp.Response, body []byte)       { W.Body = body; W.Sends++ }
+func RespSetBodyString(r *fasthttp.Response, body string) { W.Body = []byte(body); W.Sends++ }
+func RespSetStatusCode(r *fasthttp.Response, code int)    { W.Status = code }
+func RespBody(r *fasthttp.Response) []byte                { return W.Body }
+func CtxSendString(c *fiber.Ctx, body string) error       { W.Body = []byte(body); W.Sends++; return nil }
+func CtxWrite(c *fiber.Ctx, p []byte) (int, error) {
+	W.Body = append(W.Body, p...)
+	W.Sends++
+	return len(p), nil
+}
+func CtxWriteString(c *fiber.Ctx, s string) (int, error) {
+	W.Body = append(W.Body, s...)
+	W.Sends++
+	return len(s), nil
+}
+func CtxSendStream(c *fiber.Ctx, stream io.Reader, size ...int) error {
+	W.Stream, W.StreamSet = stream, true
+	return nil
+}
